@@ -315,7 +315,7 @@ class Run:
             ops = ["db_add"] * 6 + ["copy"] * 3 + ["rename"] * 3 + ["backup", "restore", "rollback", "clear", "db_delete", "db_remove",
                                                                      "exec_mut", "exec_mut", "convert", "optimize", "login"]
         op = r.choice(ops)
-        admin_api = prof == "auth" and r.random() < 0.2 and op.startswith(("db_", "exec", "optimize", "audit", "backup", "restore", "rollback",
+        admin_api = prof in ("auth", "names") and r.random() < (0.2 if prof == "auth" else 0.3) and op.startswith(("db_", "exec", "optimize", "audit", "backup", "restore", "rollback",
                                                                            "clear", "convert", "copy", "rename")) and op != "db_list"
         owner = r.choice(USERS)
         db = r.choice(self.names)
@@ -339,7 +339,7 @@ class Run:
             tu = r.choice(USERS)
         if op.startswith("admin_") and r.random() < 0.6 and self.toks.get("admin"):
             tok = r.choice(self.toks["admin"])
-        if admin_api and r.random() < 0.6 and self.toks.get("admin"):
+        if admin_api and r.random() < (0.6 if prof == "auth" else 0.95) and self.toks.get("admin"):
             tok = r.choice(self.toks["admin"])
         e = {"ev": "req", "op": op, "caller": tok, "owner": owner, "db": db, "user": tu, "admin_api": admin_api}
         self.ops[op] = self.ops.get(op, 0) + 1
@@ -538,7 +538,7 @@ NAME_SETS = {
     # path-like names (C26): hidden files, sub-directories of the owner directory that the server itself uses,
     # traversal, names that differ only by what a path join normalises
     "paths": ["a", ".a", "a.bak", "audit", "backups", "audit/a.log", "backups/a.bak", "backups/a.log", "../a", "../bob/a",
-              "a/../b", "./a", "a/b", ".."],
+              "a/../b", "./a", "a/b", "..", "b", "b.log", "a"],
 }
 
 
